@@ -22,7 +22,7 @@ func init() {
 	register(&Check{
 		ID:    "C15",
 		Level: "model_checking",
-		Rule: "from 6 states (fresh, after traffic, send-paused, burn-paused, no attesters, single attester; additionally from every state one (quick) / two (thorough) successful transactions away from those) every transaction type is executed in its success path and in every failure branch (menu of ~130 requests incl. dependency faults and malformed submitters), " +
+		Rule: "from 6 states (fresh, after traffic, send-paused, burn-paused, no attesters, single attester; additionally from every state one (quick) / up to three (thorough) successful transactions away from those) every transaction type is executed in its success path and in every failure branch (menu of ~130 requests incl. dependency faults and malformed submitters), " +
 			"and all 19 queries + export are called; per call: the raw Set/Delete log of the store service handed to the keeper is classified with the repository's own key-prefix constants and must stay inside the documented classes/cardinality, " +
 			"the typed diff (public view before/after) must equal exactly the entry the transaction names, the raw committed diff must have the same size as the typed diff, failed transactions / queries / export must leave the raw dump unchanged and issue no write at all (queries); " +
 			"path census: every error-return site of keeper/msg_server_*.go (read from the current source) must be observed, known-unreachable sites are listed; distinct_nontrivial = distinct (state, request, outcome) triples",
@@ -361,11 +361,11 @@ func c15Run(r *Run, state string, shard int) {
 	if shard == 0 {
 		c15From(r, su, state, su.pre, su.base, observed)
 	}
-	// non-initial states: the whole menu again from every state one (quick) or two (thorough)
+	// non-initial states: the whole menu again from every state one (quick) or up to three (thorough)
 	// successful transactions away; the first transaction is sharded over jobs
 	depth := 1
 	if r.Tier == "thorough" {
-		depth = 2
+		depth = 3
 	}
 	seen := map[string]bool{su.baseHash: true}
 	var expand func(label string, pre []Action, base []byte, d int)
